@@ -15,6 +15,8 @@ import time
 
 ROOT = os.path.dirname(os.path.dirname(os.path.abspath(__file__)))
 REPO = os.environ.get("VERIF_REPO", "/repo")
+# evidence/ and replays/ describe /repo; a run against another checkout (development aid, seeded changes) writes elsewhere
+OUT = ROOT if os.path.realpath(REPO) == "/repo" else os.path.join(ROOT, ".work", "alt", os.path.basename(os.path.normpath(REPO)))
 WORK = os.path.join(ROOT, ".work")
 COQ = os.path.join(ROOT, "coq")
 BIN = os.path.join(WORK, "bin")
@@ -228,8 +230,8 @@ class Ctx:
 
     # ---------------------------------------------------------- reporting --
     def violation(self, detail, replay_obj, no_input=False):
-        os.makedirs(os.path.join(ROOT, "replays"), exist_ok=True)
-        path = os.path.join(ROOT, "replays", "%s-%s-%d.json" % (self.prop, self.seed, len(self.violations)))
+        os.makedirs(os.path.join(OUT, "replays"), exist_ok=True)
+        path = os.path.join(OUT, "replays", "%s-%s-%d.json" % (self.prop, self.seed, len(self.violations)))
         with open(path, "w") as f:
             json.dump({"property": self.prop, "seed": self.seed, "tier": self.tier, "detail": detail,
                        "no_failing_input_found": no_input, "replay": replay_obj}, f, indent=1, default=str)
@@ -253,8 +255,8 @@ class Ctx:
             "coverage": cov, "assumptions": self.notes, "wall_s": round(wall, 2),
             "violations": len(self.violations),
         }
-        os.makedirs(os.path.join(ROOT, "evidence"), exist_ok=True)
-        with open(os.path.join(ROOT, "evidence", self.prop + ".json"), "w") as f:
+        os.makedirs(os.path.join(OUT, "evidence"), exist_ok=True)
+        with open(os.path.join(OUT, "evidence", self.prop + ".json"), "w") as f:
             json.dump(ev, f, indent=1, default=str)
             f.write("\n")
         for fid, what in sorted(self.known_hits.items()):
